@@ -188,6 +188,23 @@ def ndepth_obligations():
     return induction_obligations('L-NDEPTH-NONNEG', ['control.smt2'], '(define-funs-rec ((ndk ', prop)
 
 
+def parse_obligations():
+    """lemmas of spec/parse.smt2: counters are non-negative (induction), one unfolding of ttwf for list-pair patterns"""
+    def nonneg(name, call, P):
+        return '(>= %s 0)' % call
+    obls = induction_obligations('L-TCNT-NONNEG', ['control.smt2', 'parse.smt2'], '(define-funs-rec ((tcnt ', nonneg)
+    obls += induction_obligations('L-PECNT-NONNEG', ['control.smt2', 'parse.smt2'], '(define-fun-rec pecnt ', nonneg)
+    texts = [open(os.path.join(os.path.dirname(SPEC), f)).read() for f in ('control.smt2', 'parse.smt2')]
+    i = texts[1].index('; L-WF-PAIRS')
+    obls.append(('spec.L-WF-PAIRS', '(set-logic ALL)\n' + texts[0] + '\n' + texts[1][:i] + '\n(declare-const t TT)\n'
+                 '(assert (and ((_ is TTPairs) t) (ttwf t) (not (ttphas t))))\n(assert (not ((_ is ttnil) (ttprest t))))\n(check-sat)'))
+    return obls
+
+
+def prove_parse_lemmas(timeout=20):
+    return smt.run_many(parse_obligations(), timeout=timeout)
+
+
 def prove_clause_lemmas(timeout=20):
     return smt.run_many(cnt_obligations() + literal_obligations() + hpnames_obligations() + ndepth_obligations(), timeout=timeout)
 
